@@ -896,6 +896,9 @@ def split_to_sequence(node: ir.Node, op, state: OptimizerState) -> ReturnValue:
             # Invalid split size; bail out instead of raising.
             return None
         num_outputs = math.ceil(split_dimension_size / split_size)
+        if num_outputs == 0:
+            # empty sequence: SequenceConstruct needs at least one input
+            return None
         split_outputs = [f"{output.name}_split_{i}" for i in range(num_outputs)]
         if split_dimension_size % split_size != 0:
             # Uneven split: the last chunk is smaller. We must pass explicit split
